@@ -1,4 +1,4 @@
-/-  T1 obligation: the signature-hash constants regenerated from /repo (SIGHASH_*, SIGVERSION_*,
+/-  T1 obligation: the signature-hash constants regenerated from /repo (SIGHASH_NONE / SINGLE / ANYONECANPAY,
     OP_CODESEPARATOR, the function-local HASH_ONE of RawSignatureHash) equal the reference values.  -/
 import BtcVerif.Generated.Sighash
 
